@@ -66,12 +66,16 @@ def m_leaves(node, prefix=(), branches=False):
     return out
 
 
+class NsList(list):
+    """Model of a leaf that is a list of namespaces (a list of Branch objects)."""
+
+
 def m_dict(node):
-    return {k: (m_dict(v) if isinstance(v, Branch) else v) for k, v in node.items()}
+    return {k: (m_dict(v) if isinstance(v, Branch) else [m_dict(b) for b in v] if isinstance(v, NsList) else v) for k, v in node.items()}
 
 
 def m_copy(node):
-    return Branch((k, (m_copy(v) if isinstance(v, Branch) else v)) for k, v in node.items())
+    return Branch((k, (m_copy(v) if isinstance(v, Branch) else NsList(m_copy(b) for b in v) if isinstance(v, NsList) else v)) for k, v in node.items())
 
 
 def _mk_value(kind, ints, Namespace):
@@ -84,6 +88,13 @@ def _mk_value(kind, ints, Namespace):
         return (ints[0], ints[1]), (ints[0], ints[1])
     if kind == "none":
         return None, None
+    if kind == "list_ns":
+        items = []
+        for i in ints[:2]:
+            it = Namespace()
+            it["x"] = i
+            items.append(it)
+        return items, NsList([Branch(x=ints[0]), Branch(x=ints[1])])
     ns = Namespace()
     ns["x"] = ints[0]
     return ns, Branch(x=ints[0])
@@ -185,6 +196,12 @@ def _same(got, exp, Namespace):
         return all(_same(vars(got)[_mark(k)], v, Namespace) for k, v in exp.items())
     if isinstance(got, Namespace):
         return False
+    if isinstance(exp, NsList):
+        body = [e for e in exp if isinstance(e, Branch)]
+        extra = [e for e in exp if not isinstance(e, Branch)]  # probes appended to a clone's list
+        if not isinstance(got, list) or len(got) != len(exp):
+            return False
+        return all(_same(g, e, Namespace) for g, e in zip(got, body)) and list(got[len(body):]) == extra
     if type(got) is not type(exp) and not (isinstance(got, int) and isinstance(exp, int)):
         return False
     return got == exp
@@ -245,6 +262,8 @@ def _observe(ns, model, probes, Namespace, N):
     ad = ns.as_dict()
     if ad != md or list(ad.keys()) != list(md.keys()):
         return Fail("ns:as_dict-differs")
+    if not _same(ns, model, Namespace):
+        return Fail("ns:a-read-only-observer-changed-the-namespace", observer="as_dict")
     if N.namespace_to_dict(ns) != md:
         return Fail("ns:namespace_to_dict-differs")
     back = N.dict_to_namespace(md)
@@ -277,7 +296,7 @@ def _observe(ns, model, probes, Namespace, N):
     return None
 
 
-def history(k, keys, first=None, reduced=False, no_tuple=False):
+def history(k, keys, first=None, reduced=False, no_tuple=False, kinds_only=None):
     import jsonargparse._namespace as N
 
     global _CLASH
@@ -287,6 +306,8 @@ def history(k, keys, first=None, reduced=False, no_tuple=False):
     kinds = KINDS if not reduced else ["int", "ns"]
     if no_tuple:
         kinds = [x for x in kinds if x != "tuple"]
+    if kinds_only:
+        kinds = list(kinds_only)
     probes = sorted(set(keys) | {".".join(x.split(".")[:i]) for x in keys for i in range(1, len(x.split(".")))} | {"zz", "a.zz", "a.b.zz"})
 
     def harness():
@@ -381,6 +402,10 @@ def main(rep, tier):
         keys = KEYS_QUICK
         rep.bounds = dict(history_length=2, mutators=MUTATORS, keys=keys, value_kinds=[k for k in KINDS if k != "tuple"])
         jobs.append(dict(module="c11", func="history", kwargs=dict(k=1, keys=keys), timeout=120))
+        # leaves that are lists of namespaces (what List[dataclass] arguments and dict_to_namespace produce), with namespaces and ints
+        jobs.append(dict(module="c11", func="history", kwargs=dict(k=1, keys=keys, kinds_only=["list_ns", "ns", "int"]), timeout=120))
+        for mi in range(len(MUTATORS)):
+            jobs.append(dict(module="c11", func="history", kwargs=dict(k=2, keys=keys[:4], first=[mi, 0], kinds_only=["list_ns", "int"]), timeout=240))
         for mi in range(len(MUTATORS)):
             for ki in range(len(keys)):
                 jobs.append(dict(module="c11", func="history", kwargs=dict(k=2, keys=keys, first=[mi, ki], no_tuple=True), timeout=240))
